@@ -128,7 +128,10 @@ sp_dtrsv(char *uplo, char *trans, char *diag, SuperMatrix *L,
 	
 	if ( lsame_(uplo, "L") ) {
 	    /* Form x := inv(L)*x */
-    	    if ( L->nrow == 0 ) return 0; /* Quick return */
+    	    if ( L->nrow == 0 ) { /* Quick return */
+		SUPERLU_FREE(work);
+		return 0;
+	    }
 	    
 	    for (k = 0; k <= nsuper; k++) {
 		fsupc = L_FST_SUPC(k);
@@ -186,7 +189,10 @@ sp_dtrsv(char *uplo, char *trans, char *diag, SuperMatrix *L,
 	} else {
 	    /* Form x := inv(U)*x */
 	    
-	    if ( U->nrow == 0 ) return 0; /* Quick return */
+	    if ( U->nrow == 0 ) { /* Quick return */
+		SUPERLU_FREE(work);
+		return 0;
+	    }
 	    
 	    for (k = nsuper; k >= 0; k--) {
 	    	fsupc = L_FST_SUPC(k);
@@ -234,7 +240,10 @@ sp_dtrsv(char *uplo, char *trans, char *diag, SuperMatrix *L,
 	
 	if ( lsame_(uplo, "L") ) {
 	    /* Form x := inv(L')*x */
-    	    if ( L->nrow == 0 ) return 0; /* Quick return */
+    	    if ( L->nrow == 0 ) { /* Quick return */
+		SUPERLU_FREE(work);
+		return 0;
+	    }
 	    
 	    for (k = nsuper; k >= 0; --k) {
 	    	fsupc = L_FST_SUPC(k);
@@ -271,7 +280,10 @@ sp_dtrsv(char *uplo, char *trans, char *diag, SuperMatrix *L,
 	    }
 	} else {
 	    /* Form x := inv(U')*x */
-	    if ( U->nrow == 0 ) return 0; /* Quick return */
+	    if ( U->nrow == 0 ) { /* Quick return */
+		SUPERLU_FREE(work);
+		return 0;
+	    }
 	    
 	    for (k = 0; k <= nsuper; k++) {
 	    	fsupc = L_FST_SUPC(k);
